@@ -65,22 +65,56 @@ int ifdef_ignore(AsmContext *asm_context)
 
 int parse_ifdef_ignore(AsmContext *asm_context, int ignore_section)
 {
+  int ret;
+
   if (ignore_section == 1)
   {
-    if (ifdef_ignore(asm_context) == 2)
-    {
-      asm_context->assemble();
-    }
+    ret = ifdef_ignore(asm_context);
+
+    if (ret == -1) { return -1; }
+
+    // Found the matching .endif.
+    if (ret == 0) { return 0; }
+
+    // Found .else, so assemble up to the matching .endif.
+    ret = asm_context->assemble();
   }
     else
   {
-    if (asm_context->assemble() == 2)
+    ret = asm_context->assemble();
+
+    if (ret == 2)
     {
-      ifdef_ignore(asm_context);
+      // Found .else, so ignore up to the matching .endif.
+      ret = ifdef_ignore(asm_context);
+
+      if (ret == -1) { return -1; }
+
+      if (ret == 2)
+      {
+        print_error(asm_context, "Unmatched .else");
+        return -1;
+      }
+
+      return 0;
     }
   }
 
-  return 0;
+  // assemble() returns 5 when it ends on the matching .endif.
+  if (ret == 5) { return 0; }
+
+  if (ret == 2)
+  {
+    print_error(asm_context, "Unmatched .else");
+    return -1;
+  }
+
+  if (ret != -1)
+  {
+    print_error(asm_context, "Missing endif");
+  }
+
+  return -1;
 }
 
 int parse_ifdef(AsmContext *asm_context, int ifndef)
@@ -112,7 +146,7 @@ int parse_ifdef(AsmContext *asm_context, int ifndef)
     if (ifndef == 0) { ignore_section = 1; }
   }
 
-  parse_ifdef_ignore(asm_context, ignore_section);
+  if (parse_ifdef_ignore(asm_context, ignore_section) != 0) { return -1; }
 
   asm_context->ifdef_count--;
 
@@ -131,14 +165,7 @@ int parse_if(AsmContext *asm_context)
 
   if (num == -1) { return -1; }
 
-  if (num != 0)
-  {
-    parse_ifdef_ignore(asm_context, 0);
-  }
-    else
-  {
-    parse_ifdef_ignore(asm_context, 1);
-  }
+  if (parse_ifdef_ignore(asm_context, num != 0 ? 0 : 1) != 0) { return -1; }
 
   asm_context->ifdef_count--;
 
